@@ -24,3 +24,11 @@ Proof. exact nint_distance_spec. Qed.
 Print Assumptions C39_nint_distance.
 Example C39_half_integer : nint_distance_mpf (Mpf 1 5 (-1) 3) = Ok (-3, XFin 0).   (* -2.5 -> -3 (away from zero), |x - n| = 1/2 in [2^-1, 2^0) *)
 Proof. vm_compute. reflexivity. Qed.
+
+(* ---- frexp and isnpint ---- *)
+From MP Require Import Proofs.Mag2.
+Theorem C39_frexp : forall x, regular x ->
+  exists m e, mpf_frexp x = Ok (m, e) /\ regular m /\ rv x = (rv m * bpow radix2 e)%R /\ (/ 2 <= Rabs (rv m) < 1)%R.
+Proof. exact mpf_frexp_spec. Qed.
+Theorem C39_isnpint : forall x, regular x -> (mpf_isnpint x = true <-> exists n : Z, n <= 0 /\ rv x = IZR n).
+Proof. exact mpf_isnpint_spec. Qed.
